@@ -2294,7 +2294,7 @@ SOURCE_TIES = [{
     "needs": ["Options.OptSrcPrims", "Options.YProofsAtoms", "Options.YProofsKeys", "Options.YProofsCompNum", "Options.YShow"],
     "sources": ["deepdiff/diff.py", "deepdiff/base.py", "deepdiff/helper.py"],
     "fragment": "diff.py: DeepDiff._get_clean_to_keys_mapping, the key-set slice of _diff_dict (whether keys are cleaned; t_keys_intersect / "
-                "added / removed), _diff_numbers, _diff_booleans, _diff_datetime, _diff_time; base.py: Base.get_significant_digits; "
+                "added / removed), _diff_numbers, _diff_str, _diff_booleans, _diff_datetime, _diff_time; base.py: Base.get_significant_digits; "
                 "helper.py: number_to_string, number_formatting, KEY_TO_VAL_STR (and the class tuples numbers / strings / ... as checked constants)",
 }]
 
@@ -2322,13 +2322,14 @@ TIE_HDR = ("From DD Require Import Base.PyStr Options.OptModel Options.OptDtMode
            "Definition tie_show (l : list nat) : string :=\n"
            "  (\"BEGIN\" ++ nl ++ fold_right (fun i s => show_nat i ++ tab ++ \"x\" ++ nl ++ s) \"END\" l)%string.\n"
            "Definition ud0 (_ _ : pystr) : pystr := [].\n"
+           "Definition udx (s t : pystr) : pystr := (s ++ t)%list.\n"
            "Local Open Scope Z_scope.\n")
 
 
 def _tie_universe():
     """the module's key / leaf universe and option sets for differencing generated vs hand definitions"""
     keys = [None, True, False, 0, 1, 2, -1, 12, 1.0, 1.5, 2.5, 0.5, -0.25, 2.675, 0.125, "a", "A", "ab", "Ab", "AB", "1", "int:1", "number:1.0",
-            "float:1.5", "nan", b"a", b"A", b"Ab", b"ab", b"1", E.A, E.B, E.C, E.D, G.P, G.Q, G.R, G.S, G.U, Decimal("1.5"), Decimal("1.50"),
+            "float:1.5", "nan", "a\nb", "A\nb", b"a", b"A", b"Ab", b"ab", b"1", b"a\nb", E.A, E.B, E.C, E.D, G.P, G.Q, G.R, G.S, G.U, Decimal("1.5"), Decimal("1.50"),
             Decimal("2"), Decimal("2.675"), NANS[0], NANS[1], _dt(2024, 6, 1, 12, 40, 27, 250000), _dt(2024, 6, 1, 12, 40, 27, 0, 120),
             _dt(2024, 6, 1, 10, 40, 59, 0, 0), datetime.date(2024, 6, 1), datetime.time(1, 2, 3), datetime.time(1, 2, 3, 500000),
             datetime.timedelta(1), datetime.timedelta(seconds=86401)]
@@ -2396,6 +2397,12 @@ def _tie_differences(ctx, gen_dir):
     fams.append(("diff_booleans", "flat_map (fun a => map (fun b => (sx_r sx_es (g_diff_booleans no_opts (lv a b)), "
                  "sx_r sx_es (dispatch ud0 no_opts true a b [] []))) KS) [ABool true; ABool false]",
                  lambda i: {"function": "_diff_booleans", "spec": mk(), "leaf": [True, False][i // nk], "leaf2": keys[i % nk]}))
+    str_fs = [mk(case=c_, strty=t_) for c_ in (False, True) for t_ in (False, True)]
+    defs.append("Definition SFS : list opts := %s." % coq_list(xcoq_opts(f) for f in str_fs))
+    fams.append(("diff_str", "flat_map (fun F => flat_map (fun a => map (fun b => "
+                 "(sx_r sx_es (match a with AStr _ | ABytes _ => if is_enum b then Ok [] else g_diff_str F udx (lv a b) | _ => Ok [] end), "
+                 "sx_r sx_es (match a with AStr _ | ABytes _ => if is_enum b then Ok [] else strD udx F a b [] [] | _ => Ok [] end))) KS) KS) SFS",
+                 lambda i: {"function": "_diff_str", "spec": str_fs[i // (nk * nk)], "leaf": keys[(i % (nk * nk)) // nk], "leaf2": keys[i % nk]}))
     fams.append(("get_significant_digits", "map (fun F => (sx_r (sx_opt sx_N) (g_get_significant_digits (o_sig F) (o_numty F)), sx_r (sx_opt sx_N) (Ok (eff_sig F)))) FS",
                  lambda i: {"function": "get_significant_digits", "spec": fs[i]}))
     diffs, searched = [], {}
